@@ -14,7 +14,11 @@ RULE = ("correspondence (three-way): extracted Coq model <-> section['slug'] in 
         "default_slugify / plug-in slugify vs the model on every code point and random strings; search: uniqueness, GitHub "
         "rule + least-suffix rule (independent Python), equality with the CLI, '#slug' links resolve to the own heading; "
         "non-trivial = a document with a slug collision, a non-ASCII or markup title, or a custom function")
-TRUSTED = ["coq/Sect/Slug.v is a hand transcription of default_slugify/compute_unique_slug/generate_heading_target (base.py), "
+TRUSTED = ["gen/c10_src.py + gen/c10_walk.py (round 3) regenerate default_slugify, compute_unique_slug (base.py), slugify, unique_slug (plug-in) "
+           "as Gallina code; domain mapping: str = code point list, `x in slugs` = list membership, slugs.add(u) = u :: slugs, "
+           "f'{a}-{i}' = a ++ '-' ++ show i, token_tree.to_tokens()[1].children = the (type, content) list, join-comprehension = flat_map, "
+           "slug function call may raise, while-fuel = |slugs|+1; refinement to the model proved in Sect/SlugSrcProofs.v",
+           "coq/Sect/Slug.v is a hand transcription of default_slugify/compute_unique_slug/generate_heading_target (base.py), "
            "slugify/unique_slug/_anchor_func (mdit_py_plugins.anchors) and print_anchors (cli.py); the step sequence and the regex "
            "class of both slugify functions are regenerated from the sources (gen/c10_unicode.py)",
            "Unicode tables (\\w, isspace, lower) generated from the running interpreter; capital sigma (context-sensitive lower) is "
@@ -45,6 +49,12 @@ def gen(ctx):
     text, info = c10_unicode.generate(REPO, plugin_file())
     write_if_changed(COQ / "Gen" / "PyUnicodeSlug.v", text)
     ctx.gen_info["PyUnicodeSlug"] = info
+    # round 3: the code of default_slugify / compute_unique_slug / slugify / unique_slug, statement by statement
+    from gen import c10_src
+    import hashlib
+    src = c10_src.generate(REPO, plugin_file())
+    write_if_changed(COQ / "Gen" / "SlugSrc.v", src)
+    ctx.gen_info["SlugSrc"] = hashlib.sha256(src.encode()).hexdigest()[:16]
     ctx.gen_info["sources"] = src_hashes(["myst_parser/mdit_to_docutils/base.py", "myst_parser/cli.py",
                                           "myst_parser/mdit_to_docutils/transforms.py"])
 
